@@ -44,7 +44,7 @@ def r19_2_shared_pointers(ctx, prog, rule="R19.2"):
             continue
         for c in b.calls():
             p = c.callee_path
-            if re.search(r"^std::sync::Arc::<.*>::(get_mut|get_mut_unchecked|as_ptr|into_raw|from_raw|try_unwrap|into_inner)$|^std::rc::Rc::<.*>::(get_mut|get_mut_unchecked)$", c.full) \
+            if re.search(r"^std::sync::Arc::<.*>::(get_mut|get_mut_unchecked|as_ptr|into_raw|from_raw)$|^std::rc::Rc::<.*>::(get_mut|get_mut_unchecked)$", c.full) \
                     or re.search(r"^std::sync::Arc::<.*>::(get_mut|get_mut_unchecked)$", p):
                 bad.append("%s calls %s at %s:%s" % (b.path, c.full.split("::")[-1], b.file, c.line))
             if re.search(r"Arc::<.*>::make_mut$", c.full) or re.search(r"Arc::<.*>::make_mut$", p):
